@@ -257,6 +257,10 @@ def _spec_for(r, units, ads, T, mat_props, extras=True, n=None):
         na = b.count(0)
         spec["loading"] = [1 + 2 * i for i in range(na)] + [2 * na + 3 - 2 * j for j in range(len(b) - na)]
         spec["integer_loading"] = True
+    if r.random() < 0.3 and len(spec["branch"]) >= 3:
+        # marks assigned by the user, not what a guess from the pressure maximum would give (a scanning loop, all-desorption
+        # on rising pressures): a conversion has no business with them
+        spec["branch"] = r.choice([[1] * len(spec["branch"]), [r.randint(0, 1) for _ in spec["branch"]], [1, 0] + [r.randint(0, 1) for _ in spec["branch"][2:]]])
     return spec
 
 
